@@ -41,6 +41,10 @@ type Cfg struct {
 type Ctx struct {
 	ClientIP string `json:"client_ip"`
 	Secure   bool   `json:"secure,omitempty"`
+	// RemoteAddr, when set, is the connection's peer address as the runtime renders it ("127.0.0.1:4711",
+	// "[2001:db8::1]:51000"): the model then derives the client host from it the way the code does
+	// (Req.connCtx / peerHost) instead of taking ClientIP.
+	RemoteAddr string `json:"remote_addr,omitempty"`
 }
 
 type Request struct {
@@ -53,10 +57,10 @@ type Request struct {
 	Query     *string     `json:"query,omitempty"`
 	Fields    []rig.Field `json:"fields"`
 	// body (opaque to the model; framing is derived from Fields)
-	BodyHex   string      `json:"body_hex,omitempty"`
-	Chunked   bool        `json:"chunked,omitempty"`
-	ChunkSzs  []int       `json:"chunk_sizes,omitempty"`
-	Trailers  []rig.Field `json:"trailers,omitempty"`
+	BodyHex  string      `json:"body_hex,omitempty"`
+	Chunked  bool        `json:"chunked,omitempty"`
+	ChunkSzs []int       `json:"chunk_sizes,omitempty"`
+	Trailers []rig.Field `json:"trailers,omitempty"`
 }
 
 func (r *Request) Body() []byte { return core.MustUnHex(orEmpty(r.BodyHex)) }
@@ -115,6 +119,9 @@ func Tokens(c *Cfg, x *Ctx, r *Request) []string {
 		"ip=" + core.HexS(x.ClientIP), "secure=" + core.B01(x.Secure),
 		"method=" + core.HexS(r.Method), "minor=" + core.Itoa(r.Minor),
 		"path=" + core.HexS(r.Path), "query=" + optHex(r.Query),
+	}
+	if x.RemoteAddr != "" {
+		t = append(t, "remote="+core.HexS(x.RemoteAddr))
 	}
 	if c.HasAuth {
 		t = append(t, "auth="+core.JoinList([]string{core.HexS(c.AuthUser), core.HexS(c.AuthPass)}))
@@ -233,7 +240,8 @@ func decodeOutcome(ans string, f []string) Outcome {
 		var st int
 		fmt.Sscan(f[1], &st)
 		return Outcome{Kind: "refused", Status: st, Why: f[2]}
-	case "badreq", "unreadable":
+	case "badreq", "unreadable", "nohost", "srvbadreq":
+		// nohost / srvbadreq: only the `C04 request … server=` verb (Model/C04.lean VOutcome)
 		return Outcome{Kind: f[0]}
 	case "fwd":
 		o := Outcome{Kind: "fwd", HopKind: f[1], Hop: string(core.MustUnHex(f[2])), Method: string(core.MustUnHex(f[3])),
